@@ -493,6 +493,14 @@ cfb_one_basic(const void *input, void *output, const int size, const uint64_t *k
         t = enc_dec_1(*ivec, ks, 1 /* encrypt */);
 
         /* XOR and copy in one go */
+        if (size == 8) {
+                /* complete block */
+                uint64_t *out8 = (uint64_t *) out;
+                const uint64_t *in8 = (const uint64_t *) in;
+
+                *out8 = *in8 ^ t;
+        }
+
         if (size & 1) {
                 *out++ = *in++ ^ ((uint8_t) t);
                 t >>= 8;
